@@ -150,3 +150,28 @@ Theorem C06_reflective_refusal_origin : forall k f hasbody parse consumes keys s
   (k = KForm /\ f = Some s /\ fst (expected hasbody parse consumes keys) = None).
 Proof. exact reflective_refusal_origin. Qed.
 Print Assumptions C06_reflective_refusal_origin.
+
+(* ---- the response format stage (Accept against the operation's produces) comes after the gate: a request the gate
+   refuses is answered with the gate's refusal whatever its Accept header asks for, through either entry point
+   (acc = whether the negotiation finds an acceptable format) ---- *)
+Theorem C06_gate_refusal_whatever_is_accepted : forall k form_st acc hasbody parse consumes keys s,
+  parse <> Some [] ->
+  fst (expected hasbody parse consumes keys) = Some s ->
+  reflective_acc k form_st acc (gate_untyped hasbody parse parse consumes keys) = (Some s, None).
+Proof. exact reflective_acc_refusal. Qed.
+Print Assumptions C06_gate_refusal_whatever_is_accepted.
+
+Theorem C06_typed_gate_refusal_whatever_is_accepted : forall acc hasbody parse consumes keys s,
+  fst (expected hasbody parse consumes keys) = Some s ->
+  typed_acc hasbody acc (gate_typed hasbody parse parse consumes keys) = (Some s, None).
+Proof. exact typed_acc_refusal. Qed.
+Print Assumptions C06_typed_gate_refusal_whatever_is_accepted.
+
+Theorem C06_reflective_entry_meets_spec_whatever_is_accepted : forall k form_st acc hasbody parse consumes keys,
+  parse <> Some [] ->
+  let r := reflective_acc k form_st acc (gate_untyped hasbody parse parse consumes keys) in
+  gate_before_format acc (expected hasbody parse consumes keys)
+    (reflective_ok k (is_some form_st) (expected hasbody parse consumes keys) (fst r) (snd r) (is_none (fst r)))
+    (fst r) (snd r) (is_none (fst r)) = true.
+Proof. exact reflective_acc_meets_spec. Qed.
+Print Assumptions C06_reflective_entry_meets_spec_whatever_is_accepted.
